@@ -520,3 +520,62 @@ Proof.
   pose proof (VR i Li Hi) as R1. pose proof (VR j Lj Hj) as R2.
   apply F2_length in R1. apply F2_length in R2. congruence.
 Qed.
+
+(* ---- the same with the rounding VariationModel.getDeltas(round=otRound) applies: within half a unit *)
+From FV Require Import C10.Model C10.Proofs.
+From Coq Require Import Qabs.
+
+Lemma scalars_at_master ranges locs k Lk :
+  valid_locs ranges locs -> nth_error locs k = Some Lk ->
+  let row := map (supportScalarV Lk) (firstn k (supports ranges locs)) in
+  nth_error (deltaWeights ranges locs) k = Some row /\
+  forall d, interpolate d (map (supportScalarV Lk) (supports ranges locs)) == interpolate d (row ++ [1]).
+Proof.
+  intros [VR VP] Hk row.
+  set (sup := supports ranges locs) in *.
+  assert (Hsl : length sup = length locs) by apply supports_go_length.
+  assert (Hkl : (k < length locs)%nat) by (apply nth_error_Some; congruence).
+  split.
+  { unfold deltaWeights. fold sup. rewrite (weights_go_nth sup locs 0 k Lk Hk). reflexivity. }
+  intros d.
+  destruct (nth_error sup k) as [Sk|] eqn:ESk; [|apply nth_error_None in ESk; lia].
+  assert (Esplit : sup = firstn k sup ++ Sk :: skipn (S k) sup).
+  { rewrite <- (firstn_skipn k sup) at 1. f_equal. apply skipn_nth, ESk. }
+  rewrite Esplit at 1. rewrite map_app. cbn [map]. fold row.
+  assert (Hone : supportScalarV Lk Sk == 1).
+  { apply (support_one_at_own_master ranges locs k Lk Sk Hk (VR k Lk Hk) ESk). }
+  assert (Hzero : Forall (fun z => z == 0) (map (supportScalarV Lk) (skipn (S k) sup))).
+  { apply Forall_forall. intros z Hz. apply in_map_iff in Hz. destruct Hz as [Sj [<- HS]].
+    apply In_nth_error in HS. destruct HS as [i Hi].
+    assert (Hj : nth_error sup (S k + i) = Some Sj) by (apply nth_skipn, Hi).
+    destruct (nth_error locs (S k + i)) as [Lj|] eqn:ELj.
+    - destruct (VP k (S k + i)%nat Lk Lj ltac:(lia) Hk ELj) as [HD HA].
+      apply (support_zero_at_earlier_master ranges locs k (S k + i) Lk Lj Sj ltac:(lia) Hk ELj (VR _ _ ELj) HD HA Hj).
+    - apply nth_error_None in ELj. assert (S k + i < length sup)%nat by (apply nth_error_Some; congruence). lia. }
+  change (row ++ supportScalarV Lk Sk :: map (supportScalarV Lk) (skipn (S k) sup))
+    with (row ++ [supportScalarV Lk Sk] ++ map (supportScalarV Lk) (skipn (S k) sup)).
+  rewrite app_assoc, interpolate_zeros by exact Hzero.
+  apply interpolate_ext. apply Forall2_app; [|constructor; [exact Hone|constructor]].
+  clear. induction row; constructor; [reflexivity|assumption].
+Qed.
+
+Theorem built_value_within_half ranges locs masters k Lk m :
+  (forall j L, nth_error locs j = Some L -> ranges_ok ranges L) ->
+  (forall i j Li Lj, (i < j)%nat -> nth_error locs i = Some Li -> nth_error locs j = Some Lj ->
+     differ Lj Li /\ (count_nz Li <= count_nz Lj)%nat) ->
+  length masters = length locs -> nth_error locs k = Some Lk -> nth_error masters k = Some m ->
+  Qabs (interpolate (getDeltasRounded masters (deltaWeights ranges locs)) (map (supportScalarV Lk) (supports ranges locs)) - m) <= 1 # 2.
+Proof.
+  intros VR VS Hlen Hk Hm.
+  assert (V : valid_locs ranges locs).
+  { split; [exact VR|]. intros i j Li Lj Hlt Hi Hj. destruct (VS i j Li Lj Hlt Hi Hj) as [HD HC]. split; [exact HD|].
+    apply count_le_axes; [|exact HC]. pose proof (VR i Li Hi) as R1. pose proof (VR j Lj Hj) as R2.
+    apply F2_length in R1. apply F2_length in R2. congruence. }
+  destruct (scalars_at_master ranges locs k Lk V Hk) as [Hrow Hsc]. rewrite Hsc.
+  set (sup := supports ranges locs) in *.
+  assert (Hsl : length sup = length locs) by apply supports_go_length.
+  apply (master_reproduced_within_half masters (deltaWeights ranges locs) k m _); try assumption.
+  - intros j r Hr. unfold deltaWeights in Hr. fold sup in Hr.
+    rewrite (weights_go_rows sup locs 0 j r) by (try assumption; lia). reflexivity.
+  - unfold deltaWeights. rewrite weights_go_length. symmetry. exact Hlen.
+Qed.
